@@ -33,7 +33,7 @@ def compute_mc_paths_giles(rmse: float, vl: np.array, cl: np.array) -> np.array:
     :return: the updated number of Monte-Carlo paths for each level l
     """
     theta = THETA
-    cl_zerocost = cl.copy()
+    cl_zerocost = cl.astype(float)  # a float copy: the sentinel below does not fit an integer dtype
     cl_zerocost[
         cl_zerocost == 0
     ] = 1e30  # to avoid potential division by 0 in the following line
